@@ -7,7 +7,7 @@ disequalities).  "False" means *not proven*, never "satisfiable".
 """
 from math import gcd
 
-from .lin import (INT_MAX, LEN_MAX, Lin, atoms_deep, dnf, f_not, lin, lit_atoms, neg_lit, sub_lins)
+from .lin import (CNT_BOUNDS, INT_MAX, LEN_MAX, Lin, atoms_deep, dnf, f_not, lin, lit_atoms, neg_lit, sub_lins)
 
 STATS = {"unsat_calls": 0, "fm_runs": 0, "memo_hits": 0, "giveups": 0}
 _MEMO = {}
@@ -24,9 +24,12 @@ def atom_axioms(atoms, present):
         if k == "sym":
             ax.append(("le", -A))
             ax.append(("le", A - INT_MAX.get(a[2], 2**64 - 1)))
-        elif k in ("len", "cnt"):
+        elif k == "len":
             ax.append(("le", -A))
             ax.append(("le", A - LEN_MAX))
+        elif k == "cnt":
+            ax.append(("le", -A))
+            ax.append(("le", A - CNT_BOUNDS.get(a[1], LEN_MAX)))
         elif k == "byte":
             ax.append(("le", -A))
             ax.append(("le", A - 255))
@@ -124,6 +127,10 @@ def _reduce_mod(L, m, res, allres):
     for a, c in L.t.items():
         c %= m
         if c == 0:
+            continue
+        if a[0] == "mod" and a[2] % m == 0:
+            # (t mod m') ≡ t (mod m) when m | m'
+            out = out + _reduce_mod(Lin.from_key(a[1]), m, res, allres).scale(c)
             continue
         a2 = _rewrite_atom(a, allres)
         if isinstance(a2, int):
